@@ -1,9 +1,8 @@
 SPECIFICATION GSpec
 CONSTANTS
   Family = "e2e"
-  Versions <- VersionsQuick
-  Width = "quick"
+  Width = "thorough"
   MaxForge = 2
   ScenarioSet = "e2e_thorough"
-INVARIANTS TypeOK MakeJoinExact MakeLeaveExact TemplateShape SendJoinExact InviteExact ReturnsCountersigned PerformJoinExact NoJoinWithoutBothHandlers BannedNeverJoins UnforgedPublicJoinSucceeds UnforgedRestrictedJoinSucceeds TamperedNeverAccepted Emit
+INVARIANTS TypeOK MakeJoinExact MakeLeaveExact TemplateShape SendJoinExact InviteExact InviteV3Exact ReturnsCountersigned PerformJoinExact NoJoinWithoutBothHandlers BannedNeverJoins UnforgedPublicJoinSucceeds UnforgedRestrictedJoinSucceeds TamperedNeverAccepted Emit
 CHECK_DEADLOCK FALSE
